@@ -25,6 +25,7 @@ type JobCfg struct {
 	Workers   int
 	Witnesses int
 	Tier      string
+	Deadline  time.Duration
 }
 
 type InputVal struct {
@@ -61,6 +62,7 @@ type Job struct {
 	Fn      *ssa.Function
 	Cfg     JobCfg
 
+	start   time.Time
 	mu      sync.Mutex
 	cond    *sync.Cond
 	work    [][]int64
@@ -148,6 +150,7 @@ func (j *Job) done() {
 // Run explores all paths of the harness.
 func (j *Job) Run() {
 	t0 := time.Now()
+	j.start = t0
 	j.work = [][]int64{{}}
 	var wg sync.WaitGroup
 	nw := j.Cfg.Workers
@@ -214,6 +217,15 @@ func newExec(P *Program, tc *TermCtx, sv *Solvers) *Exec {
 
 func (j *Job) runPath(tc *TermCtx, sv *Solvers, prefix []int64) {
 	j.mu.Lock()
+	if j.Cfg.Deadline > 0 && time.Since(j.start) > j.Cfg.Deadline {
+		if !j.stopped {
+			j.Unwind = append(j.Unwind, fmt.Sprintf("time budget %s for this harness exhausted after %d paths; exploration stopped (%d prefixes pending)", j.Cfg.Deadline, j.Paths, len(j.work)))
+		}
+		j.stopped = true
+		j.cond.Broadcast()
+		j.mu.Unlock()
+		return
+	}
 	j.Paths++
 	np := j.Paths
 	if j.Cfg.MaxPaths > 0 && np > j.Cfg.MaxPaths {
